@@ -1617,6 +1617,22 @@ func (c *Ctx) storeErrorsPropagate(rule string, fns []*ssa.Function, consequence
 			}
 		}
 		if !tested {
+			// `if err != nil {}` leaves a comparison nothing depends on (go/ssa drops the branch
+			// of an empty body): the source tests the error and then does nothing about it
+			for _, v := range vals {
+				if v.Referrers() == nil {
+					continue
+				}
+				for _, ref := range *v.Referrers() {
+					if bo, isB := ref.(*ssa.BinOp); isB && (bo.Op == token.NEQ || bo.Op == token.EQL) && (eng.IsNilConst(bo.X) || eng.IsNilConst(bo.Y)) {
+						if bo.Referrers() == nil || len(*bo.Referrers()) == 0 {
+							tested = true
+						}
+					}
+				}
+			}
+		}
+		if !tested {
 			return "", false
 		}
 		// a function that cannot return an error (a deferred cleanup closure) can only log it
